@@ -114,7 +114,11 @@ class C14(Check):
             faults = {"seed": rng.randrange(1 << 30), "n": nf,
                       "kinds": rng.sample(FAULT_KINDS,
                                           rng.randint(1, len(FAULT_KINDS))),
-                      "fresh_accessor": rng.random() < 0.7}
+                      # fresh: accessor built inside the fault window;
+                      # cold: built fault-free just before, shards not yet
+                      # opened; warm: the long-lived accessor of the run
+                      "mode": rng.choice(["fresh", "fresh", "cold", "cold",
+                                          "warm"])}
         return {"scenario": scn, "faults": faults}
 
     # ------------------------------------------------------------------
@@ -286,8 +290,15 @@ class C14(Check):
                     continue
                 # ---------- class 2: fault sequences -----------------------
                 a2 = acc
+                mode = faults.get("mode", "fresh")
+                if mode == "cold":
+                    s0, a2 = sut(get_accessor_for_url, scn["url"])
+                    if s0 == "exc":
+                        res.violate("C14/open", f"reopen raised {a2!r}",
+                                    key=f"C14/open/{excname(a2)}")
+                        break
                 server.begin_window(record=True)
-                if faults["fresh_accessor"]:
+                if mode == "fresh":
                     # learn the request list of a fresh accessor + fetch
                     s0, a2 = sut(get_accessor_for_url, scn["url"])
                     if s0 == "exc":
@@ -297,6 +308,11 @@ class C14(Check):
                 sut(a2.fetch_chunk, key, co)
                 reqs = list(server.requests)
                 server.end_window()
+                if mode == "cold":
+                    # a second, equally cold accessor for the faulty attempt
+                    s0, a2 = sut(get_accessor_for_url, scn["url"])
+                    if s0 == "exc":
+                        break
                 if not reqs:
                     continue
                 plan = {}
@@ -305,7 +321,7 @@ class C14(Check):
                     plan[k] = (frng.choice(faults["kinds"]),)
                 server.begin_window(plan, record=True)
                 fired_before = dict(server.fired)
-                if faults["fresh_accessor"]:
+                if mode == "fresh":
                     s0, a2 = sut(get_accessor_for_url, scn["url"])
                     if s0 == "exc":
                         s1, got = "exc", a2
@@ -372,7 +388,7 @@ class C14(Check):
                                 key=f"C14/retry-returns-data/{scn['kind']}")
                 else:
                     res.probe("not_recovered_after_fault")
-                    if (not faults["fresh_accessor"] and p in stored
+                    if (mode != "fresh" and p in stored
                             and len(stored[p]) > 0 and s2 == "ok"):
                         # the accessor was built fault-free, the faults have
                         # stopped, the chunk is stored: "everything stored
